@@ -386,6 +386,7 @@ type Result struct {
 
 type Fail struct {
 	Idx  int         `json:"idx"`
+	Ord  int         `json:"ord"`
 	Res  Result      `json:"res"`
 	Tape [][3]uint32 `json:"tape"`
 }
@@ -413,6 +414,7 @@ type ReplayFile struct {
 	Variant     string      `json:"variant"`
 	Tier        string      `json:"tier"`
 	RunSeed     uint64      `json:"run_seed"`
+	RunIndex    int         `json:"run_index"`
 	Class       string      `json:"class"`
 	Msg         string      `json:"msg"`
 	Hash        uint64      `json:"schedule_hash"`
@@ -908,6 +910,9 @@ func absorb(wo *workerOut, race bool, prop string, tot *totals, start int) int {
 			f.Res.Seed, _ = strconv.ParseUint(parts[1], 10, 64)
 			f.Res.Variant = parts[2]
 		}
+		if len(parts) >= 4 {
+			f.Ord, _ = strconv.Atoi(parts[3])
+		}
 		f.Res.Prop = prop
 		cls := prop + "/race " + rr.Sig
 		parts2 := strings.Split(rr.Sig, "|")
@@ -1030,7 +1035,7 @@ func reportViolation(bins binaries, prop, tier, class string, fl *failList, noMi
 	name := fmt.Sprintf("%s-%d", prop, f.Res.Seed)
 	raw := filepath.Join(verifRoot, "replays", name+".raw.json")
 	final := filepath.Join(verifRoot, "replays", name+".json")
-	rf := ReplayFile{Property: prop, Variant: f.Res.Variant, Tier: tier, RunSeed: f.Res.Seed, Class: class, Msg: f.Res.Viol.Msg, Hash: f.Res.Hash, Steps: f.Res.Steps, Tape: f.Tape, OrigTapeLen: len(f.Tape), Race: fl.race, Notes: f.Res.Notes}
+	rf := ReplayFile{Property: prop, Variant: f.Res.Variant, Tier: tier, RunSeed: f.Res.Seed, RunIndex: f.Ord, Class: class, Msg: f.Res.Viol.Msg, Hash: f.Res.Hash, Steps: f.Res.Steps, Tape: f.Tape, OrigTapeLen: len(f.Tape), Race: fl.race, Notes: f.Res.Notes}
 	if f.Tape == nil {
 		// race reports and crashes carry no tape: the seed regenerates the run
 		rf.Tape = nil
@@ -1135,7 +1140,7 @@ func cmdReplay(mode, file string) int {
 }
 
 func replaySeedOnly(bin string, rf ReplayFile) int {
-	wo := runWorker(bin, Job{Mode: "seed", Prop: rf.Property, Tier: rf.Tier, Variants: []string{rf.Variant}, Base: rf.RunSeed}, 600*time.Second)
+	wo := runWorker(bin, Job{Mode: "seed", Prop: rf.Property, Tier: rf.Tier, Variants: []string{rf.Variant}, Base: rf.RunSeed, Start: rf.RunIndex}, 600*time.Second)
 	for _, rr := range wo.races {
 		cls := rf.Property + "/race " + rr.Sig
 		if cls == rf.Class {
